@@ -123,27 +123,47 @@ def check_pad(model, R):
     R.rule('C06.PAD', 'max pooling extracts windows with pad_value=-inf (padding never wins); average pooling and convolution pad with 0 (padded zeros are counted); the reducer runs over the whole window', floor=6)  # (conv part; pooling part declared in rules_convpe)
     from sa.rules_convpe import check_pool_forward
     check_pool_forward(model, R, 'C06')
-    for q, want_pad, red in (('conv1d_forward', '0', None), ('conv2d_forward', '0', None)):
+    # convolution: the kernel evaluated on symbolic shapes; the kernel extent comes from weight.shape, the other geometry from the arguments in their own roles
+    from sa.rules_convpe import Frame, geom_args, counts, G, NCHW, NCW, eq, show
+    from sa.poly import P
+    from sa.report import Incomplete
+    A = P.atom
+    k, d, s_, p_ = G()
+    for q, dims in (('conv1d_forward', 1), ('conv2d_forward', 2)):
         f = model.func('synapgrad.cpu_ops.' + q)
-        ew = [c for c in ast.walk(f.node) if isinstance(c, ast.Call) and dotted(c.func) == 'extract_windows']
-        ok = len(ew) == 1
-        if ok:
-            b, _ = bind_call(ew[0], model.func(CT + '.extract_windows'))
-            pv = norm(b['pad_value']) if 'pad_value' in b else '0'
-            ok = pv in (want_pad, '-numpy.inf' if want_pad == '-np.inf' else want_pad, "float('-inf')" if want_pad == '-np.inf' else '0.0')
-            roles = {k: norm(b[k]) if k in b else None for k in ('kernel_size', 'step', 'padding', 'dilation')}
-            ok = ok and roles == {'kernel_size': 'kernel_size', 'step': 'stride', 'padding': 'padding', 'dilation': 'dilation'}
-            if red:
-                reds = [c for c in ast.walk(f.node) if isinstance(c, ast.Call) and npname(model, f, c) in ('max', 'mean', 'min', 'sum', 'amax', 'amin')]
-                ok = ok and len(reds) == 1 and npname(model, f, reds[0]) == red
-                if ok:
-                    rb = npcall(model, f, reds[0])[1]
-                    ok = norm(rb.get('axis')) == '-1' and not any(k in rb for k in ('where', 'weights')) and 'windows' in names_in(rb.get('a'))
-                    if '2d' in q:
-                        # both kernel axes are merged before reducing: reshape(windows, (*windows.shape[:-2], -1))
-                        rs = [c for c in ast.walk(rb['a']) if isinstance(c, ast.Call) and npname(model, f, c) == 'reshape']
-                        ok = ok and len(rs) == 1 and norm(npcall(model, f, rs[0])[1].get('newshape')).replace(' ', '') == '(*windows.shape[:-2],-1)'
-        R.ob('C06.PAD', f.qualname, norm(ew[0])[:100] if ew else 'no extract_windows', ok, 'pad value %s, geometry roles (kernel_size, step=stride, padding, dilation), reducer %s over the full window' % (want_pad, red), f.loc)
+        shape = NCHW if dims == 2 else NCW
+        kx = [A('kx0'), A('kx1')][:dims]                      # the kernel extent is read from weight.shape
+        ke = [A('kx0[0]')] if dims == 1 else kx             # ... an int extent is expanded by np.broadcast_to inside extract_windows
+        wshape = (A('Co'), shape[1]) + tuple(kx)
+        from sa.rules_convpe import ref
+        L = shape[2:]
+        cn = tuple(ref(L[i], p_[i], d[i], ke[i], s_[i]) for i in range(dims))
+        try:
+            fr = Frame(model, 'synapgrad.cpu_ops.' + q, dict(geom_args(f), a=A('a'), weight=A('weight'), bias=None),
+                       atoms={'a.shape': shape, 'len(a.shape)': len(shape), 'weight.shape': wshape, 'len(weight.shape)': len(wshape)})
+            rs = fr.returns()
+        except Incomplete as u:
+            R.incomplete_at('C06.PAD', f.qualname, str(u))
+            continue
+        why = []
+        if not rs:
+            why.append('no returning path')
+        for o in rs:
+            pads = o.user.get('pads', [])
+            if len(pads) != 1:
+                why.append('pads: %d' % len(pads))
+                continue
+            cv = pads[0][3].get('constant_values')
+            okp = (isinstance(cv, (int, float)) and not isinstance(cv, bool) and cv == 0) or (isinstance(cv, P) and cv.is_const() and cv.const_value() == 0)
+            if not okp:
+                why.append('pad value %s' % show(cv))
+            st = o.user.get('strided', [])
+            if len(st) != 1 or not isinstance(st[0][2], (tuple, list)) or not eq(tuple(st[0][2]), tuple(cn) + tuple(shape[:2]) + tuple(ke)):
+                why.append('window view shape %s' % (show(st[0][2])[:160] if st else None))
+            if [r for r in o.user.get('reducers', []) if r[0] == q]:
+                why.append('a reduction over the windows in a convolution')
+        R.ob('C06.PAD', f.qualname, 'pad 0; windows of extent weight.shape[2:] taken with (stride, padding, dilation) in their own roles', not why,
+             'documented convolution windows: %s' % why[:3], f.loc)
 
 
 def check_bn_form(model, R):
